@@ -752,7 +752,7 @@ def run_bitprobs(drv, case) -> Outcome:
     if not ok_conv:
         out.fail("bitstring-convention",
                  f"bitstring_probabilities(one_state={one!r}) on eigenstates {eig} gives {real}, convention gives {expected}",
-                 digit_eigenstates=bool(set(eig) & {"0", "1"}))
+                 one_state_named_zero=(one_eff == "0"))
     elif set(real) != set(model) or any(abs(real[k] - model[k]) > 1e-12 for k in real):
         out.diverge(f"bitstring_probabilities: /repo {real} vs model {model}")
     if np.any(probs > cutoff) and abs(sum(real.values()) - 1.0) > 1e-9:
